@@ -37,17 +37,18 @@ def recOf (q : Req) (sg : Sig) : Rec := { hrs := q.hrs, sb := some q.p, sig := s
 /-- what is known at each program point of the call in flight -/
 def PcInv (s : St) : Prop :=
   match s.pc with
-  | .idle => s.mem = s.disk
-  | .check _ => s.mem = s.disk
-  | .sign q => s.mem = s.disk ∧ HRS.lt s.disk.hrs q.hrs
-  | .setMem q sg => s.mem = s.disk ∧ HRS.lt s.disk.hrs q.hrs ∧ sg.msg = q.p.bytes
-  | .openTemp q sg => s.mem = recOf q sg ∧ HRS.lt s.disk.hrs q.hrs
-  | .writeTemp q sg => s.mem = recOf q sg ∧ HRS.lt s.disk.hrs q.hrs
-  | .closeTemp q sg => s.mem = recOf q sg ∧ HRS.lt s.disk.hrs q.hrs ∧ s.temp = some s.mem
-  | .rename q sg => s.mem = recOf q sg ∧ HRS.lt s.disk.hrs q.hrs ∧ s.temp = some s.mem
-  | .unlink1 q sg => s.mem = recOf q sg ∧ s.disk = s.mem
-  | .unlink2 q sg => s.mem = recOf q sg ∧ s.disk = s.mem
-  | .release q o => s.mem = s.disk ∧
+  | .idle => s.mem = s.disk ∧ s.shadow = s.disk
+  | .check _ => s.mem = s.disk ∧ s.shadow = s.disk
+  | .sign q => s.mem = s.disk ∧ s.shadow = s.disk ∧ HRS.lt s.disk.hrs q.hrs
+  | .setMem q sg => s.mem = s.disk ∧ s.shadow = s.disk ∧ HRS.lt s.disk.hrs q.hrs ∧ sg.msg = q.p.bytes
+  | .setShadow q sg => s.mem = recOf q sg ∧ s.shadow = s.disk ∧ HRS.lt s.disk.hrs q.hrs
+  | .openTemp q sg => s.mem = recOf q sg ∧ s.shadow = recOf q sg ∧ HRS.lt s.disk.hrs q.hrs
+  | .writeTemp q sg => s.mem = recOf q sg ∧ s.shadow = recOf q sg ∧ HRS.lt s.disk.hrs q.hrs
+  | .closeTemp q sg => s.mem = recOf q sg ∧ s.shadow = recOf q sg ∧ HRS.lt s.disk.hrs q.hrs ∧ s.temp = some (recOf q sg)
+  | .rename q sg => s.mem = recOf q sg ∧ s.shadow = recOf q sg ∧ HRS.lt s.disk.hrs q.hrs ∧ s.temp = some (recOf q sg)
+  | .unlink1 q sg => s.mem = recOf q sg ∧ s.shadow = recOf q sg ∧ s.disk = recOf q sg
+  | .unlink2 q sg => s.mem = recOf q sg ∧ s.shadow = recOf q sg ∧ s.disk = recOf q sg
+  | .release q o => s.mem = s.disk ∧ s.shadow = s.disk ∧
       match o with
       | .released g _ post => post = g.msg ∧ HRS.le s.disk.hrs q.hrs ∧ (q.save = true → s.disk.hrs = q.hrs ∧ s.disk.sig = some g)
       | _ => True
@@ -60,40 +61,91 @@ def HistOK : List (Req × Outcome) → Prop
     (∀ g2 ts2 post2, e2.2 = .released g2 ts2 post2 → ∀ e1 ∈ rest, ∀ g1 ts1 post1, e1.2 = .released g1 ts1 post1 → e1.1.save = true →
       HRS.le e1.1.hrs e2.1.hrs ∧ (e2.1.save = true → e1.1.hrs = e2.1.hrs → g1 = g2 ∧ post1 = post2)) ∧ HistOK rest
 
-structure Inv (s : St) : Prop where
-  recDisk : RecOK s.disk
-  recMem : RecOK s.mem
+/-- the facts that tie the key file, the release log and the log of persisted records -/
+structure DiskInv (disk : Rec) (out : List (Req × Outcome)) (pers : List Rec) : Prop where
+  recDisk : RecOK disk
   /-- every recording release is covered by the key file: the file's HRS is at least the release's, and if equal
   the file holds exactly that signature -/
-  covers : ∀ e ∈ s.out, ∀ g ts post, e.2 = .released g ts post →
-      post = g.msg ∧ (e.1.save = true → HRS.le e.1.hrs s.disk.hrs ∧ (e.1.hrs = s.disk.hrs → s.disk.sig = some g))
+  covers : ∀ e ∈ out, ∀ g ts post, e.2 = .released g ts post →
+      post = g.msg ∧ (e.1.save = true → HRS.le e.1.hrs disk.hrs ∧ (e.1.hrs = disk.hrs → disk.sig = some g))
+  hist : HistOK out
+  /-- the records that ever were the key file's content are strictly increasing in HRS; the newest is the current content -/
+  persSorted : pers.Pairwise (fun newer older => HRS.lt older.hrs newer.hrs)
+  persHead : ∀ r rest, pers = r :: rest → r = disk
+  persNone : pers = [] → disk.sig = none
+  /-- every recording release was persisted before -/
+  relPers : ∀ e ∈ out, ∀ g ts post, e.2 = .released g ts post → e.1.save = true → ∃ r ∈ pers, r.hrs = e.1.hrs ∧ r.sig = some g
+
+structure Inv (s : St) : Prop where
+  d : DiskInv s.disk s.out s.persisted
+  recMem : RecOK s.mem
   pc : PcInv s
-  hist : HistOK s.out
 
 theorem inv_init : Inv St.init := by
-  refine ⟨?_, ?_, ?_, ?_, ?_⟩
-  · exact Or.inl ⟨rfl, rfl⟩
-  · exact Or.inl ⟨rfl, rfl⟩
+  refine ⟨⟨Or.inl ⟨rfl, rfl⟩, ?_, ?_, ?_, ?_, ?_, ?_⟩, Or.inl ⟨rfl, rfl⟩, ?_⟩
+  · intro e he; simp [St.init] at he
+  · simp [HistOK, St.init]
+  · simp [St.init]
+  · intro r rest h; simp [St.init] at h
+  · intro _; rfl
   · intro e he; simp [St.init] at he
   · simp [PcInv, St.init]
-  · simp [HistOK, St.init]
 
 theorem recOK_recOf (q : Req) (sg : Sig) (h : sg.msg = q.p.bytes) : RecOK (recOf q sg) := by
   exact Or.inr ⟨q.p, sg, rfl, rfl, h⟩
 
+/-- every persisted record is at or below the key file's HRS, and equal to it if at the same HRS -/
+theorem DiskInv.persCover {disk : Rec} {out : List (Req × Outcome)} {pers : List Rec} (h : DiskInv disk out pers) :
+    ∀ r ∈ pers, HRS.le r.hrs disk.hrs ∧ (r.hrs = disk.hrs → r = disk) := by
+  intro r hr
+  cases hp : pers with
+  | nil => rw [hp] at hr; cases hr
+  | cons a rest =>
+    have ha : a = disk := h.persHead a rest hp
+    rw [hp] at hr
+    rcases List.mem_cons.1 hr with rfl | hr'
+    · rw [ha]; exact ⟨HRS.le_refl _, fun _ => rfl⟩
+    · have hs := h.persSorted
+      rw [hp, List.pairwise_cons] at hs
+      have hlt : HRS.lt r.hrs a.hrs := hs.1 r hr'
+      rw [ha] at hlt
+      refine ⟨HRS.le_of_lt hlt, fun heq => ?_⟩
+      rw [heq] at hlt; exact absurd hlt (HRS.lt_irrefl _)
+
+/-- a new record strictly above the key file's lands in the key file (rename, or a crash inside an atomic rename
+that left the new content) -/
+theorem DiskInv.land {disk : Rec} {out : List (Req × Outcome)} {pers : List Rec} (h : DiskInv disk out pers)
+    (n : Rec) (hn : RecOK n) (hlt : HRS.lt disk.hrs n.hrs) : DiskInv n out (n :: pers) := by
+  refine ⟨hn, ?_, h.hist, ?_, ?_, ?_, ?_⟩
+  · intro e he g ts post hrel
+    have ⟨hpost, hc⟩ := h.covers e he g ts post hrel
+    refine ⟨hpost, fun hsv => ?_⟩
+    have ⟨hle, _⟩ := hc hsv
+    have hlt' : HRS.lt e.1.hrs n.hrs := HRS.lt_of_le_of_lt hle hlt
+    refine ⟨HRS.le_of_lt hlt', fun heq => ?_⟩
+    rw [heq] at hlt'; exact absurd hlt' (HRS.lt_irrefl _)
+  · rw [List.pairwise_cons]
+    refine ⟨fun r hr => ?_, h.persSorted⟩
+    exact HRS.lt_of_le_of_lt (h.persCover r hr).1 hlt
+  · intro r rest heq; cases heq; rfl
+  · intro heq; cases heq
+  · intro e he g ts post hrel hsv
+    obtain ⟨r, hr, h1, h2⟩ := h.relPers e he g ts post hrel hsv
+    exact ⟨r, List.mem_cons_of_mem _ hr, h1, h2⟩
+
 /-- the decision point: what `decideCall` yields satisfies the program-point invariant -/
-theorem pcInv_decide (s : St) (q : Req) (hm : s.mem = s.disk) (hrec : RecOK s.mem) :
+theorem pcInv_decide (s : St) (q : Req) (hm : s.mem = s.disk) (hsh : s.shadow = s.disk) (hrec : RecOK s.mem) :
     PcInv { s with pc := decideCall s.mem q } := by
   unfold decideCall
   split
-  · simp [PcInv, hm]
+  · simp [PcInv, hm, hsh]
   · generalize hc : checkRec s.mem q.hrs = c
     obtain ⟨same, code⟩ := c
     simp only
     split
-    · simp [PcInv, hm]
+    · simp [PcInv, hm, hsh]
     · split
-      · simp [PcInv, hm]
+      · simp [PcInv, hm, hsh]
       · rename_i hne1 hne0
         have hcode : code = 0 := by simpa using hne0
         subst hcode
@@ -107,21 +159,21 @@ theorem pcInv_decide (s : St) (q : Req) (hm : s.mem = s.disk) (hrec : RecOK s.me
             split
             · rename_i hb
               simp only [PcInv]
-              refine ⟨hm, ?_, ?_, ?_⟩
+              refine ⟨hm, hsh, ?_, ?_, ?_⟩
               · rw [hmsg, hb]
               · rw [← hm, hhrs]; exact HRS.le_refl _
               · intro _; rw [← hm]; exact ⟨hhrs, hsg⟩
             · split
               · simp only [PcInv]
-                refine ⟨hm, hmsg.symm, ?_, ?_⟩
+                refine ⟨hm, hsh, hmsg.symm, ?_, ?_⟩
                 · rw [← hm, hhrs]; exact HRS.le_refl _
                 · intro _; rw [← hm]; exact ⟨hhrs, hsg⟩
-              · simp [PcInv, hm]
-          · simp [PcInv, hm]
+              · simp [PcInv, hm, hsh]
+          · simp [PcInv, hm, hsh]
         · rename_i hsame
           have hlt := hpass.2 (by simpa using hsame)
           simp only [PcInv]
-          exact ⟨hm, by rw [← hm]; exact hlt⟩
+          exact ⟨hm, hsh, by rw [← hm]; exact hlt⟩
 
 theorem histOK_cons_nonrelease (q : Req) (o : Outcome) (out : List (Req × Outcome)) (h : HistOK out)
     (hno : ∀ g ts post, o ≠ .released g ts post) : HistOK ((q, o) :: out) := by
@@ -129,169 +181,211 @@ theorem histOK_cons_nonrelease (q : Req) (o : Outcome) (out : List (Req × Outco
   intro g2 ts2 post2 h2
   exact absurd h2 (hno g2 ts2 post2)
 
-/-- **the invariant is preserved by every event** (request, micro-step, crash) -/
-theorem inv_step (s : St) (e : Ev) (hi : Inv s) : Inv (step s e) := by
-  obtain ⟨hrd, hrm, hcov, hpc, hhist⟩ := hi
+/-- handing a non-signature to the caller changes nothing for the key file facts -/
+theorem DiskInv.nonrelease {disk : Rec} {out : List (Req × Outcome)} {pers : List Rec} (h : DiskInv disk out pers)
+    (q : Req) (o : Outcome) (hno : ∀ g ts post, o ≠ .released g ts post) : DiskInv disk ((q, o) :: out) pers := by
+  refine ⟨h.recDisk, ?_, histOK_cons_nonrelease q o out h.hist hno, h.persSorted, h.persHead, h.persNone, ?_⟩
+  · intro e he g ts post hrel
+    rcases List.mem_cons.1 he with rfl | he'
+    · exact absurd hrel (hno g ts post)
+    · exact h.covers e he' g ts post hrel
+  · intro e he g ts post hrel hsv
+    rcases List.mem_cons.1 he with rfl | he'
+    · exact absurd hrel (hno g ts post)
+    · exact h.relPers e he' g ts post hrel hsv
+
+/-- handing a signature to the caller, given what the program point knows -/
+theorem DiskInv.release {disk : Rec} {out : List (Req × Outcome)} {pers : List Rec} (h : DiskInv disk out pers)
+    (q : Req) (g : Sig) (ts : String) (post : Bytes) (hpost : post = g.msg) (hle : HRS.le disk.hrs q.hrs)
+    (hsave : q.save = true → disk.hrs = q.hrs ∧ disk.sig = some g) : DiskInv disk ((q, .released g ts post) :: out) pers := by
+  refine ⟨h.recDisk, ?_, ?_, h.persSorted, h.persHead, h.persNone, ?_⟩
+  · intro e he g' ts' post' hrel
+    rcases List.mem_cons.1 he with rfl | he'
+    · simp only at hrel
+      cases hrel
+      refine ⟨hpost, fun hsv => ?_⟩
+      have ⟨h1, h2⟩ := hsave hsv
+      exact ⟨by simp only; rw [h1]; exact HRS.le_refl _, fun _ => h2⟩
+    · exact h.covers e he' g' ts' post' hrel
+  · refine ⟨?_, h.hist⟩
+    intro g2 ts2 post2 h2 e1 he1 g1 ts1 post1 h1 hsv1
+    simp only at h2
+    cases h2
+    have ⟨hp1, hc1⟩ := h.covers e1 he1 g1 ts1 post1 h1
+    have ⟨hle1, heq1⟩ := hc1 hsv1
+    refine ⟨HRS.le_trans hle1 hle, fun hsv2 hsame => ?_⟩
+    have ⟨hd, hsig⟩ := hsave hsv2
+    have : disk.sig = some g1 := heq1 (by simp only at hsame; rw [hsame, hd])
+    rw [hsig] at this
+    cases this
+    exact ⟨rfl, by rw [hp1, hpost]⟩
+  · intro e he g' ts' post' hrel hsv
+    rcases List.mem_cons.1 he with rfl | he'
+    · simp only at hrel
+      cases hrel
+      have ⟨h1, h2⟩ := hsave hsv
+      cases hp : pers with
+      | nil => have := h.persNone hp; rw [this] at h2; cases h2
+      | cons a rest =>
+        have ha := h.persHead a rest hp
+        exact ⟨a, List.mem_cons_self, by rw [ha]; exact h1, by rw [ha]; exact h2⟩
+    · exact h.relPers e he' g' ts' post' hrel hsv
+
+theorem inv_restart (s : St) (hd : DiskInv s.disk s.out s.persisted) : Inv (restart s) :=
+  ⟨hd, hd.recDisk, by simp [PcInv, restart]⟩
+
+/-- **the invariant is preserved by every event** (request, micro-step, crash, crash inside an ATOMIC rename) -/
+theorem inv_step (s : St) (e : Ev) (hi : Inv s) (hat : e.atomicAt s) : Inv (step s e) := by
+  obtain ⟨hd, hrm, hpc⟩ := hi
   cases e with
   | req q =>
     simp only [step]
     split
     · rename_i hidle
-      refine ⟨hrd, hrm, hcov, ?_, hhist⟩
+      refine ⟨hd, hrm, ?_⟩
       simp only [PcInv, hidle] at hpc
-      simp [PcInv, hpc]
-    · exact ⟨hrd, hrm, hcov, hpc, hhist⟩
-  | crash =>
+      simp only [PcInv]; exact hpc
+    · exact ⟨hd, hrm, hpc⟩
+  | crash => exact inv_restart s hd
+  | crashTorn r =>
     simp only [step]
-    exact ⟨hrd, hrd, hcov, by simp [PcInv], hhist⟩
+    split
+    · rename_i q sg hq
+      simp only [PcInv, hq] at hpc
+      obtain ⟨hmem, _, hlt, htemp⟩ := hpc
+      split
+      · exact inv_restart s hd
+      · rename_i hne
+        simp only [Ev.atomicAt] at hat
+        rcases hat with h | h
+        · exact absurd h hne
+        · rw [htemp] at h
+          simp only [Option.getD_some] at h
+          subst h
+          have hok : RecOK (recOf q sg) := hmem ▸ hrm
+          exact inv_restart _ (hd.land (recOf q sg) hok hlt)
+    · exact inv_restart s hd
   | tick =>
     simp only [step, tick]
     split
-    · -- idle
-      exact ⟨hrd, hrm, hcov, hpc, hhist⟩
+    · exact ⟨hd, hrm, hpc⟩
     · -- check
       rename_i q hq
       simp only [PcInv, hq] at hpc
-      exact ⟨hrd, hrm, hcov, pcInv_decide s q hpc hrm, hhist⟩
+      exact ⟨hd, hrm, pcInv_decide s q hpc.1 hpc.2 hrm⟩
     · -- sign
       rename_i q hq
       simp only [PcInv, hq] at hpc
       split
-      · exact ⟨hrd, hrm, hcov, by simp [PcInv, hpc], hhist⟩
+      · exact ⟨hd, hrm, by simp only [PcInv]; exact ⟨hpc.1, hpc.2.1, hpc.2.2, trivial⟩⟩
       · rename_i hns
-        refine ⟨hrd, hrm, hcov, ?_, hhist⟩
+        refine ⟨hd, hrm, ?_⟩
         simp only [PcInv]
-        refine ⟨hpc.1, trivial, HRS.le_of_lt hpc.2, ?_⟩
+        refine ⟨hpc.1, hpc.2.1, trivial, HRS.le_of_lt hpc.2.2, ?_⟩
         intro hsv; exact absurd hsv hns
     · -- setMem
       rename_i q sg hq
       simp only [PcInv, hq] at hpc
-      refine ⟨hrd, recOK_recOf q sg hpc.2.2, hcov, ?_, hhist⟩
-      simp [PcInv, recOf, hpc.2.1]
+      refine ⟨hd, recOK_recOf q sg hpc.2.2.2, ?_⟩
+      simp only [PcInv]; exact ⟨rfl, hpc.2.1, hpc.2.2.1⟩
+    · -- setShadow
+      rename_i q sg hq
+      simp only [PcInv, hq] at hpc
+      refine ⟨hd, hrm, ?_⟩
+      simp only [PcInv]; exact ⟨hpc.1, rfl, hpc.2.2⟩
     · -- openTemp
       rename_i q sg hq
       simp only [PcInv, hq] at hpc
-      exact ⟨hrd, hrm, hcov, by simp only [PcInv]; exact hpc, hhist⟩
-    · -- writeTemp
+      exact ⟨hd, hrm, by simp only [PcInv]; exact hpc⟩
+    · -- writeTemp: the SHADOW record goes into the temp file
       rename_i q sg hq
       simp only [PcInv, hq] at hpc
-      exact ⟨hrd, hrm, hcov, by simp only [PcInv]; exact ⟨hpc.1, hpc.2, trivial⟩, hhist⟩
+      exact ⟨hd, hrm, by simp only [PcInv]; exact ⟨hpc.1, hpc.2.1, hpc.2.2, by rw [hpc.2.1]⟩⟩
     · -- closeTemp
       rename_i q sg hq
       simp only [PcInv, hq] at hpc
-      exact ⟨hrd, hrm, hcov, by simp only [PcInv]; exact hpc, hhist⟩
+      exact ⟨hd, hrm, by simp only [PcInv]; exact hpc⟩
     · -- rename: the key file becomes the new record; every earlier release is strictly below it
       rename_i q sg hq
       simp only [PcInv, hq] at hpc
-      obtain ⟨hmem, hlt, htemp⟩ := hpc
-      have hdisk : s.temp.getD s.disk = s.mem := by rw [htemp]; rfl
-      refine ⟨by rw [hdisk]; exact hrm, hrm, ?_, ?_, hhist⟩
-      · intro e he g ts post hrel
-        have ⟨hpost, hc⟩ := hcov e he g ts post hrel
-        refine ⟨hpost, fun hsv => ?_⟩
-        have ⟨hle, _⟩ := hc hsv
-        simp only [hdisk, hmem, recOf]
-        have hlt' : HRS.lt e.1.hrs q.hrs := HRS.lt_of_le_of_lt hle hlt
-        refine ⟨HRS.le_of_lt hlt', fun heq => ?_⟩
-        rw [heq] at hlt'; exact absurd hlt' (HRS.lt_irrefl _)
-      · simp only [PcInv, hdisk]; exact ⟨hmem, trivial⟩
+      obtain ⟨hmem, hsh, hlt, htemp⟩ := hpc
+      have hdisk : s.temp.getD s.disk = recOf q sg := by rw [htemp]; rfl
+      have hok : RecOK (recOf q sg) := hmem ▸ hrm
+      refine ⟨?_, hrm, ?_⟩
+      · simp only [hdisk]; exact hd.land (recOf q sg) hok hlt
+      · simp only [PcInv, hdisk]; exact ⟨hmem, hsh, trivial⟩
     · -- unlink1
       rename_i q sg hq
       simp only [PcInv, hq] at hpc
-      exact ⟨hrd, hrm, hcov, by simp only [PcInv]; exact hpc, hhist⟩
+      exact ⟨hd, hrm, by simp only [PcInv]; exact hpc⟩
     · -- unlink2
       rename_i q sg hq
       simp only [PcInv, hq] at hpc
-      obtain ⟨hmem, hdm⟩ := hpc
-      refine ⟨hrd, hrm, hcov, ?_, hhist⟩
+      obtain ⟨hmem, hsh, hdm⟩ := hpc
+      refine ⟨hd, hrm, ?_⟩
       simp only [PcInv]
       have hmsg : sg.msg = q.p.bytes := hrm.msg q.p sg (by rw [hmem]; rfl) (by rw [hmem]; rfl)
-      refine ⟨hdm.symm, hmsg.symm, ?_, fun _ => ?_⟩
-      · rw [hdm, hmem]; exact HRS.le_refl _
-      · rw [hdm, hmem]; exact ⟨rfl, rfl⟩
+      refine ⟨by rw [hmem, hdm], by rw [hsh, hdm], hmsg.symm, ?_, fun _ => ?_⟩
+      · rw [hdm]; exact HRS.le_refl _
+      · rw [hdm]; exact ⟨rfl, rfl⟩
     · -- release: the outcome is handed to the caller
       rename_i q o hq
       simp only [PcInv, hq] at hpc
-      obtain ⟨hmd, ho⟩ := hpc
+      obtain ⟨hmd, hsd, ho⟩ := hpc
       cases o with
       | refused code =>
-        refine ⟨hrd, hrm, ?_, by simp [PcInv, hmd], histOK_cons_nonrelease q _ _ hhist (by intro g ts post h; cases h)⟩
-        intro e he g ts post hrel
-        rcases List.mem_cons.1 he with rfl | he'
-        · cases hrel
-        · exact hcov e he' g ts post hrel
+        exact ⟨hd.nonrelease q _ (by intro g ts post h; cases h), hrm, by simp only [PcInv]; exact ⟨hmd, hsd⟩⟩
       | panicked =>
-        refine ⟨hrd, hrm, ?_, by simp [PcInv, hmd], histOK_cons_nonrelease q _ _ hhist (by intro g ts post h; cases h)⟩
-        intro e he g ts post hrel
-        rcases List.mem_cons.1 he with rfl | he'
-        · cases hrel
-        · exact hcov e he' g ts post hrel
+        exact ⟨hd.nonrelease q _ (by intro g ts post h; cases h), hrm, by simp only [PcInv]; exact ⟨hmd, hsd⟩⟩
       | released g ts post =>
         simp only at ho
         obtain ⟨hpost, hle, hsave⟩ := ho
-        refine ⟨hrd, hrm, ?_, by simp [PcInv, hmd], ?_⟩
-        · intro e he g' ts' post' hrel
-          rcases List.mem_cons.1 he with rfl | he'
-          · simp only at hrel
-            cases hrel
-            refine ⟨hpost, fun hsv => ?_⟩
-            have ⟨h1, h2⟩ := hsave hsv
-            exact ⟨by simp only; rw [h1]; exact HRS.le_refl _, fun _ => h2⟩
-          · exact hcov e he' g' ts' post' hrel
-        · refine ⟨?_, hhist⟩
-          intro g2 ts2 post2 h2 e1 he1 g1 ts1 post1 h1 hsv1
-          simp only at h2
-          cases h2
-          have ⟨hp1, hc1⟩ := hcov e1 he1 g1 ts1 post1 h1
-          have ⟨hle1, heq1⟩ := hc1 hsv1
-          refine ⟨HRS.le_trans hle1 hle, fun hsv2 hsame => ?_⟩
-          have ⟨hd, hsig⟩ := hsave hsv2
-          have : s.disk.sig = some g1 := heq1 (by simp only at hsame; rw [hsame, hd])
-          rw [hsig] at this
-          cases this
-          exact ⟨rfl, by rw [hp1, hpost]⟩
+        exact ⟨hd.release q g ts post hpost hle hsave, hrm, by simp only [PcInv]; exact ⟨hmd, hsd⟩⟩
 
-theorem inv_run (s : St) (evs : List Ev) (hi : Inv s) : Inv (run s evs) := by
+theorem inv_run (s : St) (evs : List Ev) (hi : Inv s) (hat : AtomicRun s evs) : Inv (run s evs) := by
   induction evs generalizing s with
   | nil => exact hi
-  | cons e rest ih => exact ih (step s e) (inv_step s e hi)
+  | cons e rest ih => exact ih (step s e) (inv_step s e hi hat.1) hat.2
 
-/-- every state reachable from a fresh key file by any requests, micro-steps and crashes satisfies the invariant -/
-theorem inv_reachable (evs : List Ev) : Inv (run St.init evs) := inv_run _ _ inv_init
+/-- every state reachable from a fresh key file by any requests, micro-steps, crashes and crashes inside atomic
+renames satisfies the invariant -/
+theorem inv_reachable (evs : List Ev) (hat : AtomicRun St.init evs) : Inv (run St.init evs) := inv_run _ _ inv_init hat
 
-/-! ## the property clauses, over all request / crash sequences -/
+/-! ## the property clauses, over all request / crash sequences
+
+Every theorem below quantifies over ALL event lists `evs` — requests (votes and proposals, recording or not), micro-steps,
+crashes between any two micro-steps, and crashes INSIDE the rename — under the single file-system hypothesis
+`AtomicRun St.init evs` (a crash inside a rename leaves the old or the new content). -/
 
 theorem histOK_split {l1 l2 : List (Req × Outcome)} {e2 : Req × Outcome} (h : HistOK (l1 ++ e2 :: l2)) : HistOK (e2 :: l2) := by
   induction l1 with
   | nil => exact h
   | cons a l ih => exact ih h.2
 
-/-- **one_payload_per_hrs.** In every history (any requests, crashes between any two micro-steps), two releases
-of recording calls at the same (height, round, step) carry the same signature, i.e. the key has signed
-exactly one payload there. -/
-theorem one_payload_per_hrs (evs : List Ev) (l1 l2 : List (Req × Outcome)) (q1 q2 : Req) (g1 g2 : Sig) (ts1 ts2 : String) (p1 p2 : Bytes)
+/-- **one_payload_per_hrs.** In every history, two releases of recording calls at the same (height, round, step)
+carry the same signature, i.e. the key has released exactly one payload there. -/
+theorem one_payload_per_hrs (evs : List Ev) (hat : AtomicRun St.init evs) (l1 l2 : List (Req × Outcome)) (q1 q2 : Req) (g1 g2 : Sig) (ts1 ts2 : String) (p1 p2 : Bytes)
     (hout : (run St.init evs).out = l1 ++ (q2, .released g2 ts2 p2) :: l2)
     (h1 : (q1, Outcome.released g1 ts1 p1) ∈ l2) (hs1 : q1.save = true) (hs2 : q2.save = true) (hsame : q1.hrs = q2.hrs) :
     g1 = g2 ∧ g1.msg = g2.msg := by
-  have hh := (inv_reachable evs).hist
+  have hh := (inv_reachable evs hat).d.hist
   rw [hout] at hh
   have := (histOK_split hh).1 g2 ts2 p2 rfl _ h1 g1 ts1 p1 rfl hs1
   have h := (this.2 hs2 hsame).1
   exact ⟨h, by rw [h]⟩
 
-/-- **no_regression.** A release (recording or not) never happens at an HRS below an earlier recording release:
-a request for a lower height/round/step than one already signed is not served. -/
-theorem no_regression (evs : List Ev) (l1 l2 : List (Req × Outcome)) (q1 q2 : Req) (g1 g2 : Sig) (ts1 ts2 : String) (p1 p2 : Bytes)
+/-- **no_regression.** A release (recording or not) never happens at an HRS below an earlier recording release. -/
+theorem no_regression (evs : List Ev) (hat : AtomicRun St.init evs) (l1 l2 : List (Req × Outcome)) (q1 q2 : Req) (g1 g2 : Sig) (ts1 ts2 : String) (p1 p2 : Bytes)
     (hout : (run St.init evs).out = l1 ++ (q2, .released g2 ts2 p2) :: l2)
     (h1 : (q1, Outcome.released g1 ts1 p1) ∈ l2) (hs1 : q1.save = true) :
     HRS.le q1.hrs q2.hrs := by
-  have hh := (inv_reachable evs).hist
+  have hh := (inv_reachable evs hat).d.hist
   rw [hout] at hh
   exact ((histOK_split hh).1 g2 ts2 p2 rfl _ h1 g1 ts1 p1 rfl hs1).1
 
 /-- the same as a refusal statement: whatever a later call for a strictly lower HRS hands to its caller, it is
 not a signature -/
-theorem lower_request_refused (evs : List Ev) (l1 l2 : List (Req × Outcome)) (q1 q2 : Req) (o2 : Outcome) (g1 : Sig) (ts1 : String) (p1 : Bytes)
+theorem lower_request_refused (evs : List Ev) (hat : AtomicRun St.init evs) (l1 l2 : List (Req × Outcome)) (q1 q2 : Req) (o2 : Outcome) (g1 : Sig) (ts1 : String) (p1 : Bytes)
     (hout : (run St.init evs).out = l1 ++ (q2, o2) :: l2)
     (h1 : (q1, Outcome.released g1 ts1 p1) ∈ l2) (hs1 : q1.save = true) (hlow : HRS.lt q2.hrs q1.hrs) :
     (∃ code, o2 = .refused code) ∨ o2 = .panicked := by
@@ -299,11 +393,11 @@ theorem lower_request_refused (evs : List Ev) (l1 l2 : List (Req × Outcome)) (q
   | refused code => exact Or.inl ⟨code, rfl⟩
   | panicked => exact Or.inr rfl
   | released g2 ts2 p2 =>
-    exact absurd hlow (HRS.not_lt_of_le (no_regression evs l1 l2 q1 q2 g1 g2 ts1 ts2 p1 p2 hout h1 hs1))
+    exact absurd hlow (HRS.not_lt_of_le (no_regression evs hat l1 l2 q1 q2 g1 g2 ts1 ts2 p1 p2 hout h1 hs1))
 
 /-- **replay_returns_original.** A repeated request at an HRS already signed either is refused or returns the
 ORIGINAL signature inside a vote whose signed content (sign-bytes, hence timestamp) is the original's. -/
-theorem replay_returns_original (evs : List Ev) (l1 l2 : List (Req × Outcome)) (q1 q2 : Req) (o2 : Outcome) (g1 : Sig) (ts1 : String) (p1 : Bytes)
+theorem replay_returns_original (evs : List Ev) (hat : AtomicRun St.init evs) (l1 l2 : List (Req × Outcome)) (q1 q2 : Req) (o2 : Outcome) (g1 : Sig) (ts1 : String) (p1 : Bytes)
     (hout : (run St.init evs).out = l1 ++ (q2, o2) :: l2)
     (h1 : (q1, Outcome.released g1 ts1 p1) ∈ l2) (hs1 : q1.save = true) (hs2 : q2.save = true) (hsame : q1.hrs = q2.hrs) :
     (∃ ts2, o2 = .released g1 ts2 p1) ∨ (∃ code, o2 = .refused code) ∨ o2 = .panicked := by
@@ -311,15 +405,15 @@ theorem replay_returns_original (evs : List Ev) (l1 l2 : List (Req × Outcome)) 
   | refused code => exact Or.inr (Or.inl ⟨code, rfl⟩)
   | panicked => exact Or.inr (Or.inr rfl)
   | released g2 ts2 p2 =>
-    have hh := (inv_reachable evs).hist
+    have hh := (inv_reachable evs hat).d.hist
     rw [hout] at hh
     have := ((histOK_split hh).1 g2 ts2 p2 rfl _ h1 g1 ts1 p1 rfl hs1).2 hs2 hsame
     exact Or.inl ⟨ts2, by rw [this.1, this.2]⟩
 
 /-- every signature handed out signs exactly the content of the vote it is handed out in -/
-theorem released_signature_signs_returned_vote (evs : List Ev) (q : Req) (g : Sig) (ts : String) (post : Bytes)
+theorem released_signature_signs_returned_vote (evs : List Ev) (hat : AtomicRun St.init evs) (q : Req) (g : Sig) (ts : String) (post : Bytes)
     (h : (q, Outcome.released g ts post) ∈ (run St.init evs).out) : post = g.msg :=
-  ((inv_reachable evs).covers _ h g ts post rfl).1
+  ((inv_reachable evs hat).d.covers _ h g ts post rfl).1
 
 /-- a micro-step either leaves the log alone or is the `release` step of the call in flight -/
 theorem tick_out (s : St) : (tick s).out = s.out ∨ ∃ q o, s.pc = .release q o ∧ (tick s).out = (q, o) :: s.out ∧ (tick s).disk = s.disk := by
@@ -333,16 +427,21 @@ theorem tick_out (s : St) : (tick s).out = s.out ∨ ∃ q o, s.pc = .release q 
 /-- **persist_before_release.** At the moment an event hands a signature of a recording call to the caller,
 the key file already records that HRS with exactly that signature and its sign-bytes (and the event itself does
 not touch the file). -/
-theorem persist_before_release (evs : List Ev) (e : Ev) (q : Req) (g : Sig) (ts : String) (post : Bytes)
+theorem persist_before_release (evs : List Ev) (hat : AtomicRun St.init evs) (e : Ev) (q : Req) (g : Sig) (ts : String) (post : Bytes)
     (hnew : (step (run St.init evs) e).out = (q, .released g ts post) :: (run St.init evs).out) (hs : q.save = true) :
     (run St.init evs).disk.hrs = q.hrs ∧ (run St.init evs).disk.sig = some g ∧
       (∃ p, (run St.init evs).disk.sb = some p ∧ p.bytes = g.msg) ∧ (step (run St.init evs) e).disk = (run St.init evs).disk := by
-  generalize hs0 : run St.init evs = s at *
-  have hi : Inv s := hs0 ▸ inv_reachable evs
+  have hi : Inv (run St.init evs) := inv_reachable evs hat
+  generalize run St.init evs = s at *
   have hlen : (step s e).out.length = s.out.length + 1 := by rw [hnew]; simp
   cases e with
   | req q' => simp only [step] at hlen; split at hlen <;> simp at hlen
-  | crash => simp [step] at hlen
+  | crash => simp [step, restart] at hlen
+  | crashTorn r =>
+    simp only [step] at hlen
+    split at hlen
+    · split at hlen <;> simp [restart] at hlen
+    · simp [restart] at hlen
   | tick =>
     simp only [step] at hnew hlen ⊢
     rcases tick_out s with h | ⟨q', o, hq, hout, hdisk⟩
@@ -352,86 +451,320 @@ theorem persist_before_release (evs : List Ev) (e : Ev) (q : Req) (g : Sig) (ts 
       obtain ⟨rfl, rfl⟩ := hnew
       have hpc := hi.pc
       simp only [PcInv, hq] at hpc
-      obtain ⟨_, _, _, hsave⟩ := hpc
+      obtain ⟨_, _, _, _, hsave⟩ := hpc
       have ⟨h1, h2⟩ := hsave hs
-      exact ⟨h1, h2, hi.recDisk.bytes_of_sig g h2, hdisk⟩
+      exact ⟨h1, h2, hi.d.recDisk.bytes_of_sig g h2, hdisk⟩
+
+/-! ### persisted records: released only after persisted, and the converse bound -/
+
+/-- **released_after_persisted.** Every signature a recording call ever handed out is the signature of a record
+that had become the content of the key file before (the model half; the source-order half is
+`signVote_saves_before_release`, `signProposal_saves_before_release`, `saveSigned_copies_record_before_save`). -/
+theorem released_after_persisted (evs : List Ev) (hat : AtomicRun St.init evs) (q : Req) (g : Sig) (ts : String) (post : Bytes)
+    (h : (q, Outcome.released g ts post) ∈ (run St.init evs).out) (hs : q.save = true) :
+    ∃ r ∈ (run St.init evs).persisted, r.hrs = q.hrs ∧ r.sig = some g :=
+  (inv_reachable evs hat).d.relPers _ h g ts post rfl hs
+
+/-- **persisted_strictly_increasing.** The records that ever became the content of the key file are strictly
+increasing in (height, round, step): the key file never held two different records for one HRS, released or not. -/
+theorem persisted_strictly_increasing (evs : List Ev) (hat : AtomicRun St.init evs) :
+    (run St.init evs).persisted.Pairwise (fun newer older => HRS.lt older.hrs newer.hrs) :=
+  (inv_reachable evs hat).d.persSorted
+
+/-- the newest persisted record is what the key file holds now; all others are strictly below it -/
+theorem persisted_head_is_disk (evs : List Ev) (hat : AtomicRun St.init evs) (r : Rec) (rest : List Rec)
+    (h : (run St.init evs).persisted = r :: rest) :
+    r = (run St.init evs).disk ∧ ∀ r' ∈ rest, HRS.lt r'.hrs (run St.init evs).disk.hrs := by
+  have hd := (inv_reachable evs hat).d
+  have hr := hd.persHead r rest h
+  have hs := hd.persSorted
+  rw [h, List.pairwise_cons] at hs
+  exact ⟨hr, fun r' h' => hr ▸ hs.1 r' h'⟩
+
+/-- **at most one persisted-but-unreleased record can still be released.** A persisted record other than the
+current content of the key file is dead: a recording release at its HRS that is in the log carries ITS signature
+(it was released while it was current), and any persisted record whose signature was never released and that has
+been overwritten stays unreleased — so at any time the only persisted-but-unreleased record that a caller can
+still obtain is the current one. Stated on the reachable state: two persisted records at the same HRS are equal,
+and a recording release at the HRS of a persisted record carries that record's signature. -/
+theorem persisted_unique_per_hrs (evs : List Ev) (hat : AtomicRun St.init evs) (r1 r2 : Rec)
+    (h1 : r1 ∈ (run St.init evs).persisted) (h2 : r2 ∈ (run St.init evs).persisted) (hsame : r1.hrs = r2.hrs) : r1 = r2 := by
+  have hs := persisted_strictly_increasing evs hat
+  generalize (run St.init evs).persisted = l at *
+  induction l with
+  | nil => cases h1
+  | cons a rest ih =>
+    rw [List.pairwise_cons] at hs
+    rcases List.mem_cons.1 h1 with rfl | h1' <;> rcases List.mem_cons.1 h2 with rfl | h2'
+    · rfl
+    · have := hs.1 r2 h2'; rw [hsame] at this; exact absurd this (HRS.lt_irrefl _)
+    · have := hs.1 r1 h1'; rw [hsame] at this; exact absurd this (HRS.lt_irrefl _)
+    · exact ih h1' h2' hs.2
+
+theorem release_matches_persisted (evs : List Ev) (hat : AtomicRun St.init evs) (q : Req) (g : Sig) (ts : String) (post : Bytes) (r : Rec)
+    (h : (q, Outcome.released g ts post) ∈ (run St.init evs).out) (hs : q.save = true)
+    (hr : r ∈ (run St.init evs).persisted) (hsame : r.hrs = q.hrs) : r.sig = some g := by
+  obtain ⟨r', hr', h1, h2⟩ := released_after_persisted evs hat q g ts post h hs
+  have := persisted_unique_per_hrs evs hat r r' hr hr' (by rw [hsame, h1])
+  rw [this]; exact h2
+
+
+/-! ### the future of an overwritten record -/
+
+theorem atomicRun_append (s : St) (a b : List Ev) : AtomicRun s (a ++ b) ↔ AtomicRun s a ∧ AtomicRun (run s a) b := by
+  induction a generalizing s with
+  | nil => simp [AtomicRun, run]
+  | cons e rest ih =>
+    simp only [List.cons_append, AtomicRun, run, List.foldl_cons]
+    rw [ih, and_assoc]; rfl
+
+theorem run_append (s : St) (a b : List Ev) : run s (a ++ b) = run (run s a) b := by
+  simp [run, List.foldl_append]
+
+/-- one event: the key file's HRS never decreases, and a recording release it emits is at the key file's HRS -/
+theorem step_mono (s : St) (e : Ev) (hi : Inv s) (hat : e.atomicAt s) :
+    HRS.le s.disk.hrs (step s e).disk.hrs ∧
+    ((step s e).out = s.out ∨ ∃ q o, (step s e).out = (q, o) :: s.out ∧
+      ∀ g ts post, o = .released g ts post → q.save = true → HRS.le s.disk.hrs q.hrs) := by
+  have hpc := hi.pc
+  cases e with
+  | req q => simp only [step]; split <;> exact ⟨HRS.le_refl _, Or.inl rfl⟩
+  | crash => exact ⟨HRS.le_refl _, Or.inl rfl⟩
+  | crashTorn r =>
+    simp only [step]
+    split
+    · rename_i q sg hq
+      simp only [PcInv, hq] at hpc
+      split
+      · exact ⟨HRS.le_refl _, Or.inl rfl⟩
+      · rename_i hne
+        simp only [Ev.atomicAt] at hat
+        rcases hat with h | h
+        · exact absurd h hne
+        · rw [hpc.2.2.2] at h; simp only [Option.getD_some] at h; subst h
+          exact ⟨HRS.le_of_lt hpc.2.2.1, Or.inl rfl⟩
+    · exact ⟨HRS.le_refl _, Or.inl rfl⟩
+  | tick =>
+    simp only [step]
+    rcases tick_out s with h | ⟨q, o, hq, hout, hdisk⟩
+    · refine ⟨?_, Or.inl h⟩
+      unfold tick
+      split <;> try exact HRS.le_refl _
+      · split <;> exact HRS.le_refl _
+      · rename_i q sg hq
+        simp only [PcInv, hq] at hpc
+        simp only [hpc.2.2.2, Option.getD_some]
+        exact HRS.le_of_lt hpc.2.2.1
+    · refine ⟨by rw [hdisk]; exact HRS.le_refl _, Or.inr ⟨q, o, hout, ?_⟩⟩
+      intro g ts post ho hsv
+      simp only [PcInv, hq] at hpc
+      subst ho
+      exact hpc.2.2.2.1
+
+/-- along any continuation: the key file's HRS never decreases, the log only grows, and every recording release of
+the continuation is at or above the HRS the key file had at its start -/
+theorem run_mono (s : St) (evs : List Ev) (hi : Inv s) (hat : AtomicRun s evs) :
+    HRS.le s.disk.hrs (run s evs).disk.hrs ∧ ∃ l, (run s evs).out = l ++ s.out ∧
+      ∀ q g ts post, (q, Outcome.released g ts post) ∈ l → q.save = true → HRS.le s.disk.hrs q.hrs := by
+  induction evs generalizing s with
+  | nil => exact ⟨HRS.le_refl _, [], rfl, fun _ _ _ _ h => by cases h⟩
+  | cons e rest ih =>
+    have ⟨h1, h2⟩ := step_mono s e hi hat.1
+    have ⟨h3, l, hl, h4⟩ := ih (step s e) (inv_step s e hi hat.1) hat.2
+    refine ⟨HRS.le_trans h1 h3, ?_⟩
+    rcases h2 with h | ⟨q, o, h, ho⟩
+    · refine ⟨l, by simp only [run, List.foldl_cons] at hl ⊢; rw [hl, h], ?_⟩
+      intro q g ts post hm hsv
+      exact HRS.le_trans h1 (h4 q g ts post hm hsv)
+    · refine ⟨l ++ [(q, o)], by simp only [run, List.foldl_cons] at hl ⊢; rw [hl, h]; simp, ?_⟩
+      intro q' g ts post hm hsv
+      rcases List.mem_append.1 hm with hm | hm
+      · exact HRS.le_trans h1 (h4 q' g ts post hm hsv)
+      · simp only [List.mem_singleton, Prod.mk.injEq] at hm
+        obtain ⟨rfl, rfl⟩ := hm
+        exact ho g ts post rfl hsv
+
+/-- **an overwritten record is dead.** Once a persisted record is no longer the content of the key file, no
+continuation (requests, crashes at any point, atomic renames) ever hands out a signature of a recording call at
+its HRS again. With `persisted_head_is_disk`: at any time the only persisted-but-unreleased record a caller can
+still obtain is the one currently in the key file — at most one. -/
+theorem overwritten_record_never_released (evs evs' : List Ev) (hat : AtomicRun St.init (evs ++ evs')) (r : Rec)
+    (hr : r ∈ (run St.init evs).persisted) (hne : r ≠ (run St.init evs).disk) :
+    ∃ l, (run St.init (evs ++ evs')).out = l ++ (run St.init evs).out ∧
+      ∀ q g ts post, (q, Outcome.released g ts post) ∈ l → q.save = true → q.hrs ≠ r.hrs := by
+  have ⟨ha, hb⟩ := (atomicRun_append St.init evs evs').1 hat
+  have hi := inv_reachable evs ha
+  have ⟨_, l, hl, h⟩ := run_mono (run St.init evs) evs' hi hb
+  refine ⟨l, by rw [run_append]; exact hl, ?_⟩
+  intro q g ts post hm hsv heq
+  have hle := h q g ts post hm hsv
+  have ⟨hle', heq'⟩ := hi.d.persCover r hr
+  rw [heq] at hle
+  exact hne (heq' (HRS.le_antisymm hle' hle))
+
+/-! ### the same-HRS rule: no second signature -/
+
+theorem decideCall_same (m : Rec) (q : Req) (hrec : RecOK m) (hsame : m.hrs = q.hrs) (hstep : q.hrs.s ≠ -1) :
+    ∃ o, decideCall m q = .release q o ∧
+      ∀ g ts post, o = .released g ts post → m.sig = some g ∧ ∃ lp, m.sb = some lp ∧ post = lp.bytes ∧
+        ((q.p.bytes = lp.bytes ∧ ts = q.p.ts) ∨ (q.p.bytes ≠ lp.bytes ∧ q.p.core = lp.core ∧ ts = lp.ts)) := by
+  unfold decideCall
+  rw [if_neg hstep, ← hsame, checkRec_same]
+  rcases hrec with ⟨h1, h2⟩ | ⟨lp, ls, h1, h2, _⟩
+  · simp [h1, h2]
+  · simp only [h1, h2, Option.isNone_some, Bool.false_eq_true, if_false]
+    by_cases hb : q.p.bytes = lp.bytes
+    · refine ⟨_, by simp [hb]; rfl, ?_⟩
+      intro g ts post ho
+      cases ho
+      refine ⟨rfl, lp, rfl, ?_, Or.inl ⟨hb, ?_⟩⟩ <;> first | rfl | exact hb | exact hb.symm
+    · by_cases hc : q.p.core = lp.core
+      · refine ⟨_, by simp [hb, hc]; rfl, ?_⟩
+        intro g ts post ho
+        cases ho
+        exact ⟨rfl, lp, rfl, rfl, Or.inr ⟨hb, hc, rfl⟩⟩
+      · refine ⟨_, by simp [hb, hc]; rfl, ?_⟩
+        intro g ts post ho
+        cases ho
+
+/-- **same HRS, only the timestamp differs (or nothing differs): the stored signature is handed out, byte for
+byte, and no second signature is ever computed.** For a call at exactly the recorded HRS (any state reachable by
+any history): the key computes NO signature (`signed` unchanged), the key file and the log of persisted records are
+untouched, and if the call hands out a signature it is the one stored in the key file, inside a vote whose
+sign-bytes are the stored sign-bytes; the vote keeps its own timestamp only if its sign-bytes were already
+identical to the stored ones, otherwise it gets the stored timestamp and the request's core equals the stored core. -/
+theorem same_hrs_call_returns_stored (s : St) (q : Req) (hi : Inv s) (hidle : s.pc = .idle) (hsame : s.mem.hrs = q.hrs) (hstep : q.hrs.s ≠ -1) :
+    ∃ o, (call s q).out = (q, o) :: s.out ∧ (call s q).signed = s.signed ∧ (call s q).disk = s.disk ∧
+      (call s q).persisted = s.persisted ∧
+      ∀ g ts post, o = .released g ts post → s.disk.sig = some g ∧ ∃ lp, s.disk.sb = some lp ∧ post = lp.bytes ∧
+        ((q.p.bytes = lp.bytes ∧ ts = q.p.ts) ∨ (q.p.bytes ≠ lp.bytes ∧ q.p.core = lp.core ∧ ts = lp.ts)) := by
+  obtain ⟨o, hd, ho⟩ := decideCall_same s.mem q hi.recMem hsame hstep
+  have hmd : s.mem = s.disk := by have := hi.pc; simp only [PcInv, hidle] at this; exact this.1
+  refine ⟨o, ?_, ?_, ?_, ?_, ?_⟩
+  · simp [call, step, hidle, finish, tick, hd]
+  · simp [call, step, hidle, finish, tick, hd]
+  · simp [call, step, hidle, finish, tick, hd]
+  · simp [call, step, hidle, finish, tick, hd]
+  · rw [← hmd]; exact ho
 
 /-! ## the full statement, the interface-wide statement and its counterexample -/
 
-/-- **C04 for the recording calls (SignVote, SignProposal)**: over all histories with crashes at any point,
-after a recording release at HRS `x`: (a) nothing is signed at a lower HRS, (b) at `x` itself only the original
-signature over the original content is ever handed out again, and (c) whenever a recording call hands out a
-signature the key file already records it. -/
+/-- **C04 for the recording calls (SignVote, SignProposal)**: over all histories with crashes at any point
+(incl. inside an atomic rename), after a recording release at HRS `x`: (a) nothing is signed at a lower HRS, (b) at `x`
+itself only the original signature over the original content is ever handed out again, (c) whenever a recording call
+hands out a signature the key file already records it, and (d) the key file never holds two records for one HRS. -/
 def C04_statement : Prop :=
-  (∀ (evs : List Ev) (l1 l2 : List (Req × Outcome)) (q1 q2 : Req) (o2 : Outcome) (g1 : Sig) (ts1 : String) (p1 : Bytes),
+  (∀ (evs : List Ev), AtomicRun St.init evs → ∀ (l1 l2 : List (Req × Outcome)) (q1 q2 : Req) (o2 : Outcome) (g1 : Sig) (ts1 : String) (p1 : Bytes),
     (run St.init evs).out = l1 ++ (q2, o2) :: l2 → (q1, Outcome.released g1 ts1 p1) ∈ l2 → q1.save = true →
       (HRS.lt q2.hrs q1.hrs → ∀ g2 ts2 p2, o2 ≠ .released g2 ts2 p2) ∧
       (q2.save = true → q1.hrs = q2.hrs → ∀ g2 ts2 p2, o2 = .released g2 ts2 p2 → g2 = g1 ∧ p2 = p1))
-  ∧ (∀ (evs : List Ev) (e : Ev) (q : Req) (g : Sig) (ts : String) (post : Bytes),
+  ∧ (∀ (evs : List Ev), AtomicRun St.init evs → ∀ (e : Ev) (q : Req) (g : Sig) (ts : String) (post : Bytes),
       (step (run St.init evs) e).out = (q, .released g ts post) :: (run St.init evs).out → q.save = true →
       (run St.init evs).disk.hrs = q.hrs ∧ (run St.init evs).disk.sig = some g)
+  ∧ (∀ (evs : List Ev), AtomicRun St.init evs →
+      (run St.init evs).persisted.Pairwise (fun newer older => HRS.lt older.hrs newer.hrs))
 
 theorem C04_holds : C04_statement := by
-  refine ⟨?_, ?_⟩
-  · intro evs l1 l2 q1 q2 o2 g1 ts1 p1 hout h1 hs1
+  refine ⟨?_, ?_, persisted_strictly_increasing⟩
+  · intro evs hat l1 l2 q1 q2 o2 g1 ts1 p1 hout h1 hs1
     refine ⟨fun hlow g2 ts2 p2 ho => ?_, fun hs2 hsame g2 ts2 p2 ho => ?_⟩
     · subst ho
-      exact absurd hlow (HRS.not_lt_of_le (no_regression evs l1 l2 q1 q2 g1 g2 ts1 ts2 p1 p2 hout h1 hs1))
+      exact absurd hlow (HRS.not_lt_of_le (no_regression evs hat l1 l2 q1 q2 g1 g2 ts1 ts2 p1 p2 hout h1 hs1))
     · subst ho
-      rcases replay_returns_original evs l1 l2 q1 q2 _ g1 ts1 p1 hout h1 hs1 hs2 hsame with ⟨ts, h⟩ | ⟨c, h⟩ | h
+      rcases replay_returns_original evs hat l1 l2 q1 q2 _ g1 ts1 p1 hout h1 hs1 hs2 hsame with ⟨ts, h⟩ | ⟨c, h⟩ | h
       · cases h; exact ⟨rfl, rfl⟩
       · cases h
       · cases h
-  · intro evs e q g ts post hnew hs
-    have := persist_before_release evs e q g ts post hnew hs
+  · intro evs hat e q g ts post hnew hs
+    have := persist_before_release evs hat e q g ts post hnew hs
     exact ⟨this.1, this.2.1⟩
 
 /-- the same demand on EVERY method of the signing interface, i.e. including `SignVoteWithoutSave`
 (`save = false`): two releases at the same HRS carry the same signature -/
 def C04_statement_full_interface : Prop :=
-  ∀ (evs : List Ev) (l1 l2 : List (Req × Outcome)) (q1 q2 : Req) (g1 g2 : Sig) (ts1 ts2 : String) (p1 p2 : Bytes),
+  ∀ (evs : List Ev), AtomicRun St.init evs → ∀ (l1 l2 : List (Req × Outcome)) (q1 q2 : Req) (g1 g2 : Sig) (ts1 ts2 : String) (p1 p2 : Bytes),
     (run St.init evs).out = l1 ++ (q2, .released g2 ts2 p2) :: l2 → (q1, Outcome.released g1 ts1 p1) ∈ l2 →
     q1.hrs = q2.hrs → g1 = g2
 
+/-- the recording-call statement WITHOUT the rename-atomicity hypothesis -/
+def C04_statement_without_atomic_rename : Prop :=
+  ∀ (evs : List Ev) (l1 l2 : List (Req × Outcome)) (q1 q2 : Req) (g1 g2 : Sig) (ts1 ts2 : String) (p1 p2 : Bytes),
+    (run St.init evs).out = l1 ++ (q2, .released g2 ts2 p2) :: l2 → (q1, Outcome.released g1 ts1 p1) ∈ l2 →
+    q1.save = true → q2.save = true → q1.hrs = q2.hrs → g1 = g2
+
 def exA (save : Bool) : Req := { hrs := ⟨5, 0, 2⟩, p := { bytes := [1], core := [10], ts := "t1" }, save := save }
 def exB (save : Bool) : Req := { hrs := ⟨5, 0, 2⟩, p := { bytes := [2], core := [20], ts := "t1" }, save := save }
+def exC : Req := { hrs := ⟨6, 0, 2⟩, p := { bytes := [3], core := [30], ts := "t1" }, save := true }
 def ticks (n : Nat) : List Ev := List.replicate n Ev.tick
+
+instance (s : St) (e : Ev) : Decidable (e.atomicAt s) := by
+  cases e <;> simp only [Ev.atomicAt] <;> exact inferInstance
+
+instance decAtomicRun : (s : St) → (evs : List Ev) → Decidable (AtomicRun s evs)
+  | _, [] => isTrue trivial
+  | s, e :: rest =>
+    have := decAtomicRun (step s e) rest
+    by simp only [AtomicRun]; exact inferInstance
 
 /-- **false of the current code**: `SignVoteWithoutSave` signs block A and then block B at the same HRS -/
 theorem C04_full_interface_counterexample : ¬ C04_statement_full_interface := by
   intro h
-  have := h ([.req (exA false)] ++ ticks 3 ++ [.req (exB false)] ++ ticks 3) [] [(exA false, .released ⟨[1]⟩ "t1" [1])]
+  have := h ([.req (exA false)] ++ ticks 3 ++ [.req (exB false)] ++ ticks 3) (by decide) [] [(exA false, .released ⟨[1]⟩ "t1" [1])]
     (exA false) (exB false) ⟨[1]⟩ ⟨[2]⟩ "t1" "t1" [1] [2] (by decide) (by simp) rfl
   exact absurd this (by decide)
 
 /-- the strongest true statement: restricted to the recording calls it holds (`one_payload_per_hrs`), and
 unrecorded calls in between do not disturb it; `Props.C04.signVoteWithoutSave_has_no_caller` keeps the
 restriction honest for the node. -/
-theorem C04_full_interface_partial (evs : List Ev) (l1 l2 : List (Req × Outcome)) (q1 q2 : Req) (g1 g2 : Sig) (ts1 ts2 : String) (p1 p2 : Bytes)
+theorem C04_full_interface_partial (evs : List Ev) (hat : AtomicRun St.init evs) (l1 l2 : List (Req × Outcome)) (q1 q2 : Req) (g1 g2 : Sig) (ts1 ts2 : String) (p1 p2 : Bytes)
     (hout : (run St.init evs).out = l1 ++ (q2, .released g2 ts2 p2) :: l2) (h1 : (q1, Outcome.released g1 ts1 p1) ∈ l2)
     (hs1 : q1.save = true) (hs2 : q2.save = true) (hsame : q1.hrs = q2.hrs) : g1 = g2 :=
-  (one_payload_per_hrs evs l1 l2 q1 q2 g1 g2 ts1 ts2 p1 p2 hout h1 hs1 hs2 hsame).1
+  (one_payload_per_hrs evs hat l1 l2 q1 q2 g1 g2 ts1 ts2 p1 p2 hout h1 hs1 hs2 hsame).1
+
+/-- **rename atomicity is needed**: A is signed, persisted and released at 5/0/2; a call for 6/0/2 dies inside a
+rename that leaves an EMPTY record in the key file; after the restart a different block B is signed at 5/0/2. -/
+theorem rename_atomicity_needed : ¬ C04_statement_without_atomic_rename := by
+  intro h
+  have := h ([.req (exA true)] ++ ticks 11 ++ [.req exC] ++ ticks 7 ++ [.crashTorn Rec.zero, .req (exB true)] ++ ticks 11)
+    [] [(exA true, .released ⟨[1]⟩ "t1" [1])] (exA true) (exB true) ⟨[1]⟩ ⟨[2]⟩ "t1" "t1" [1] [2] (by decide) (by simp) rfl rfl rfl
+  exact absurd this (by decide)
+
+/-- with the hypothesis it holds (this is `one_payload_per_hrs`) -/
+theorem C04_with_atomic_rename (evs : List Ev) (hat : AtomicRun St.init evs) (l1 l2 : List (Req × Outcome)) (q1 q2 : Req) (g1 g2 : Sig) (ts1 ts2 : String) (p1 p2 : Bytes)
+    (hout : (run St.init evs).out = l1 ++ (q2, .released g2 ts2 p2) :: l2) (h1 : (q1, Outcome.released g1 ts1 p1) ∈ l2)
+    (hs1 : q1.save = true) (hs2 : q2.save = true) (hsame : q1.hrs = q2.hrs) : g1 = g2 :=
+  (one_payload_per_hrs evs hat l1 l2 q1 q2 g1 g2 ts1 ts2 p1 p2 hout h1 hs1 hs2 hsame).1
 
 /-! ## non-vacuity: crashes inside a call -/
 
 /-- crash between `sign` and `rename` (the process dies at the entry of rename): nothing was released and
 nothing is recorded, so a different block at the same HRS is signed afterwards -/
-example : (run St.init ([.req (exA true)] ++ ticks 6 ++ [.crash, .req (exB true)] ++ ticks 10)).out
+example : (run St.init ([.req (exA true)] ++ ticks 7 ++ [.crash, .req (exB true)] ++ ticks 11)).out
     = [(exB true, .released ⟨[2]⟩ "t1" [2])] := by decide
 
 /-- crash right after `rename` (before the signature is handed out): the record is on disk, so the different
 block is refused ("Conflicting data"), and the original request gets the persisted signature -/
-example : (run St.init ([.req (exA true)] ++ ticks 7 ++ [.crash, .req (exB true)] ++ ticks 2 ++ [.req (exA true)] ++ ticks 2)).out
+example : (run St.init ([.req (exA true)] ++ ticks 8 ++ [.crash, .req (exB true)] ++ ticks 2 ++ [.req (exA true)] ++ ticks 2)).out
     = [(exA true, .released ⟨[1]⟩ "t1" [1]), (exB true, .refused conflictCode)] := by decide
 
+/-- a crash INSIDE an atomic rename that left the new content behaves like the second case, one that left the old
+content like the first; both runs satisfy `AtomicRun` -/
+example : AtomicRun St.init ([.req (exA true)] ++ ticks 7 ++ [.crashTorn (recOf (exA true) ⟨[1]⟩), .req (exB true)] ++ ticks 2) ∧
+    (run St.init ([.req (exA true)] ++ ticks 7 ++ [.crashTorn (recOf (exA true) ⟨[1]⟩), .req (exB true)] ++ ticks 2)).out
+      = [(exB true, .refused conflictCode)] := by decide
+
+example : AtomicRun St.init ([.req (exA true)] ++ ticks 7 ++ [.crashTorn Rec.zero, .req (exB true)] ++ ticks 11) ∧
+    (run St.init ([.req (exA true)] ++ ticks 7 ++ [.crashTorn Rec.zero, .req (exB true)] ++ ticks 11)).out
+      = [(exB true, .released ⟨[2]⟩ "t1" [2])] := by decide
+
 /-- the hypotheses of the main theorems are satisfiable: a history with two releases at one HRS (replay with a
-different timestamp returns the original content) and a refused lower request -/
-example : (run St.init ([.req (exA true)] ++ ticks 10 ++
+different timestamp returns the original content, the key computed ONE signature) and a refused lower request -/
+example : let s := run St.init ([.req (exA true)] ++ ticks 11 ++
       [.req { exA true with p := { bytes := [3], core := [10], ts := "t2" } }] ++ ticks 2 ++
-      [.req { exA true with hrs := ⟨4, 9, 3⟩ }] ++ ticks 2)).out
-    = [({ exA true with hrs := ⟨4, 9, 3⟩ }, .refused 1),
+      [.req { exA true with hrs := ⟨4, 9, 3⟩ }] ++ ticks 2)
+    s.out = [({ exA true with hrs := ⟨4, 9, 3⟩ }, .refused 1),
        ({ exA true with p := { bytes := [3], core := [10], ts := "t2" } }, .released ⟨[1]⟩ "t1" [1]),
-       (exA true, .released ⟨[1]⟩ "t1" [1])] := by decide
+       (exA true, .released ⟨[1]⟩ "t1" [1])] ∧ s.signed = [(⟨5, 0, 2⟩, ⟨[1]⟩)] ∧ s.persisted = [recOf (exA true) ⟨[1]⟩] := by decide
 
 /-! ## progress and the driver's composite steps -/
 
@@ -446,8 +779,13 @@ theorem fresh_request_served (s : St) (q : Req) (hidle : s.pc = .idle) (hlt : HR
     simp
   simp [call, step, hidle, finish, tick, hd, hsave, recOf]
 
-/-- the composite steps the driver executes (`finish`, `finishKill`) are event lists: everything the
-correspondence run exercises is an instance of the histories the theorems quantify over -/
+/-- the composite steps the driver executes (`finish`, `finishKill`) are event lists without torn renames:
+everything the correspondence run exercises is an instance of the histories the theorems quantify over -/
+theorem atomicRun_ticks (s : St) (k : Nat) : AtomicRun s (ticks k) := by
+  induction k generalizing s with
+  | zero => trivial
+  | succ k ih => exact ⟨trivial, ih _⟩
+
 theorem finish_is_run (n : Nat) (s : St) : ∃ k, finish n s = run s (ticks k) := by
   induction n generalizing s with
   | zero => exact ⟨0, rfl⟩
@@ -459,19 +797,19 @@ theorem finish_is_run (n : Nat) (s : St) : ∃ k, finish n s = run s (ticks k) :
       exact ⟨k + 1, by rw [hk]; rfl⟩
 
 theorem finishKill_is_run (name : String) (n fuel seen : Nat) (s : St) :
-    ∃ evs, (finishKill name n fuel seen s).1 = run s evs := by
+    ∃ evs, (finishKill name n fuel seen s).1 = run s evs ∧ AtomicRun s evs := by
   induction fuel generalizing s seen with
-  | zero => exact ⟨[], rfl⟩
+  | zero => exact ⟨[], rfl, trivial⟩
   | succ fuel ih =>
     unfold finishKill
     split
-    · exact ⟨[], rfl⟩
+    · exact ⟨[], rfl, trivial⟩
     · split
       · split
-        · exact ⟨[.crash], rfl⟩
-        · obtain ⟨evs, h⟩ := ih (seen + 1) (tick s)
-          exact ⟨.tick :: evs, by rw [h]; rfl⟩
-      · obtain ⟨evs, h⟩ := ih seen (tick s)
-        exact ⟨.tick :: evs, by rw [h]; rfl⟩
+        · exact ⟨[.crash], rfl, trivial, trivial⟩
+        · obtain ⟨evs, h, ha⟩ := ih (seen + 1) (tick s)
+          exact ⟨.tick :: evs, by rw [h]; rfl, trivial, ha⟩
+      · obtain ⟨evs, h, ha⟩ := ih seen (tick s)
+        exact ⟨.tick :: evs, by rw [h]; rfl, trivial, ha⟩
 
 end Props.C04
